@@ -171,3 +171,63 @@ def small_scope(maxlen=4, lpos_len=6, span=6):
                             a += [b"maxlen", str(ml).encode()]
                         lines.append(render(a, [k]))
     return lines
+
+
+def long_list_programs(rng, n):
+    """lists of 33-90 DISTINCT elements (every generator above keeps lists short): positional reads and writes (LINDEX / LSET / LRANGE windows / LPOS) at
+    non-negative and negative positions near the tail, the head and the middle, interleaved with pops and pushes at both ends, LMOVE, LREM, LTRIM - a
+    position cached by one command and used by a later one (seeded change C09-index-cursor-stale-after-rpop: LINDEX k <tail>; RPOP; RPUSH; LINDEX k <tail>)
+    shows as a wrong element, since every element is different."""
+    from . import execgen
+    lines = []
+    for p in range(n):
+        k, k2 = b"long", b"long2"
+        ln = rng.randint(33, 90)
+        lines.append("R")
+        lines.append(execgen.render([b"RPUSH", k] + [b"e%d" % i for i in range(ln)], [k]))
+        fresh = 0
+        last_pos = ln - 1
+        for _ in range(rng.randint(12, 30)):
+            c = rng.choice(["lindex", "lindex", "lindex", "lset", "lset", "rpop", "rpop", "lpop", "rpush", "rpush", "lpush", "lrange", "lmove", "lrem", "ltrim", "lpos", "llen", "again"])
+            near = rng.choice([ln - 1, ln - 1, ln - 2, ln, ln + 1, ln + 2, 32, 33, 31, ln // 2, 0, 1, last_pos, last_pos, last_pos + 1])
+            pos = near if rng.random() < 0.8 else -rng.choice([1, 2, 3, ln, ln + 1])
+            if c in ("lindex", "again"):
+                if c == "again":
+                    pos = last_pos
+                a = [b"LINDEX", k, b"%d" % pos]
+                last_pos = pos if pos >= 0 else last_pos
+            elif c == "lset":
+                fresh += 1
+                a = [b"LSET", k, b"%d" % pos, b"w%d" % fresh]
+                last_pos = pos if pos >= 0 else last_pos
+            elif c == "rpop":
+                cnt = rng.choice([None, None, 1, 2, 3])
+                a = [b"RPOP", k] + ([b"%d" % cnt] if cnt else [])
+                ln = max(0, ln - (cnt or 1))
+            elif c == "lpop":
+                a = [b"LPOP", k]
+                ln = max(0, ln - 1)
+            elif c in ("rpush", "lpush"):
+                m = rng.choice([1, 1, 2, 3])
+                vals = []
+                for _ in range(m):
+                    fresh += 1
+                    vals.append(b"f%d" % fresh)
+                a = [b"RPUSH" if c == "rpush" else b"LPUSH", k] + vals
+                ln += m
+            elif c == "lrange":
+                a = [b"LRANGE", k, b"%d" % max(0, pos - 2), b"%d" % (pos + 2)]
+            elif c == "lmove":
+                a = [b"LMOVE", k, rng.choice([k, k2]), rng.choice([b"RIGHT", b"LEFT"]), rng.choice([b"RIGHT", b"LEFT"])]
+            elif c == "lrem":
+                a = [b"LREM", k, rng.choice([b"0", b"1", b"-1"]), b"e%d" % rng.randint(0, 95)]
+                ln = max(0, ln - 1)
+            elif c == "ltrim":
+                a = [b"LTRIM", k, rng.choice([b"0", b"1", b"2"]), b"%d" % rng.choice([-1, -2, ln - 2, ln + 5])]
+            elif c == "lpos":
+                a = [b"LPOS", k, b"e%d" % rng.randint(0, 95)]
+            else:
+                a = [b"LLEN", k]
+            lines.append(execgen.render(a, [k, k2]))
+        lines.append(execgen.render([b"LRANGE", k, b"0", b"-1"], [k, k2], full=True))
+    return lines
